@@ -63,6 +63,10 @@ def batch(rng, n, multi_ok):
 
 
 def gen(rng, tier):
+    if rng.random() < 0.004:
+        # the id counters across a long update that fails late, a reopen and a further update (history engine of C10)
+        from checks import c10
+        return {"c10case": c10.gen_long_src_case(rng), "fmt": "gff3", "id_spec": None, "steps": []}
     fmt = "gff3" if rng.random() < 0.85 else "gtf"
     spec = rng.choice(SPECS) if fmt == "gff3" else rng.choice([None, None, {"gene": "gene_id", "transcript": "transcript_id", "exon": "exon_number"}])
     multi = rng.random() < 0.25
@@ -96,6 +100,15 @@ def gen(rng, tier):
 
 
 def run(case):
+    if case.get("c10case"):
+        from checks import c10
+        o = c10.run(case["c10case"])
+        for v in o["violations"]:
+            v["sig"] = dict(v["sig"], clause="C04.long/" + v["sig"]["clause"])
+            v["clause"] = v["sig"]["clause"]
+            v.pop("case", None)
+        o["sample"] = "long update failing after > 1000 items, reopen, update (C10 history engine)"
+        return o
     out = {"violations": [], "probes": {}, "stats": {}, "digests": set()}
     V = out["violations"]
     probes = out["probes"]
